@@ -237,7 +237,7 @@ def vspec_for(draw, spec, t, hard=True, finite=False, depth=0, omit_defaults=Tru
         if cc.get('extra'):
             pn = {p['name'] for p in cc.get('params', [])}
             ex = draw(st.lists(st.tuples(
-                st.sampled_from(['ex1', 'ex2', 'zz', 'some-extra', 'Key']),
+                st.sampled_from(['ex1', 'ex2', 'zz', 'some-extra', 'Key', 'self', 'cls']),
                 plain_vspec(hard, finite, max_leaves=3)), max_size=2,
                 unique_by=lambda p: p[0]))
             extra = [[a, b] for a, b in ex if a not in pn]
